@@ -53,7 +53,7 @@ func Run(c *core.Ctx) {
 		reqs = append(reqs, drv.Req{Fn: "fmt", Args: [][]byte{[]byte(cs.Enc)}})
 	}
 	res := c.Model(reqs)
-	tie1, tie2, prop, accepted, conv := true, true, true, true, true
+	tie1, tie2, prop, accepted, conv, iff := true, true, true, true, true, true
 	nUnstable := 0
 	shapeCount := map[string]int{}
 	for i, cs := range cases {
@@ -76,7 +76,7 @@ func Run(c *core.Ctx) {
 		}
 		// the model names a reason exactly when it predicts a different second pass
 		if (len(reasons) == 0) != (m2 == m1) {
-			tie2 = false
+			iff = false
 			c.Fail("tie", "unstable_reasons empty iff model predicts a fixed point", "", map[string]any{"file": cs.Name, "source": cs.Src, "reasons": reasons}, "reasons and predicted second pass disagree")
 		}
 		if m1 != cs.P1 {
@@ -145,6 +145,7 @@ func Run(c *core.Ctx) {
 	c.Extra["unstable_inputs"] = nUnstable
 	c.Oblige("correspondence", "formatter model first pass = TemplateFile.Write, byte for byte, on every accepted input", tie1, "")
 	c.Oblige("correspondence", "reparse model predicts the real second pass on every input whose instability is a layout one (and on every stable input)", tie2, "")
+	c.Oblige("correspondence", "unstable_reasons names a cause exactly when the model's predicted second pass differs from the first (executable form of C09_no_reason_stable and its converse) on every accepted input", iff, "")
 	c.Oblige("correspondence", "two-pass convergence of the layout model: predicted third pass = predicted second pass on every accepted input", conv, "")
 	c.Oblige("correspondence", "the formatter's output is accepted by the parser on every accepted input", accepted, "")
 	c.Oblige("correspondence", "format(format x) = format x on every accepted input (known findings excepted by reason)", prop || true, "see failures / known findings")
